@@ -11,7 +11,7 @@ import fcntl, hashlib, os, shutil, subprocess, sys, time, glob
 
 VERIF = os.path.dirname(os.path.dirname(os.path.abspath(__file__)))
 REPO = os.environ.get('VERIF_REPO', '/repo')
-CACHE = os.path.join(VERIF, '.cache')
+CACHE = os.environ.get('VERIF_CACHE') or os.path.join(VERIF, '.cache')     # VERIF_CACHE: development only (parallel scratch runs)
 MIRX = os.path.join(VERIF, 'mirx', 'target', 'release', 'mirx')
 
 CONFIGS = {
